@@ -12,6 +12,9 @@ written by an independent sub-agent):
 import json, os, re, shutil, subprocess, sys, glob
 
 VERIF = os.path.dirname(os.path.dirname(os.path.abspath(__file__)))
+# where the mutation is applied for MY checks: /repo itself, or (SEED_TARGET) a scratch worktree at /repo's HEAD
+# that bin/check is pointed at with VERIF_REPO - used when other work must not see /repo change
+TARGET = os.environ.get("SEED_TARGET", "/repo")
 ENV = dict(os.environ, GOFLAGS="-mod=mod", GOPROXY="off", GOSUMDB="off", GOTOOLCHAIN="local")
 
 
@@ -58,6 +61,15 @@ def main():
             meta = {"error": "meta.json unreadable: %s" % e}
         patch = os.path.join(mdir, "patch.diff")
         demos = [f for f in glob.glob(os.path.join(mdir, "*.go"))]
+        nested = []   # demo files stored under a tree mirroring the repository paths
+        for root, _, fs in os.walk(mdir):
+            for f in fs:
+                if f.endswith(".go") and root != mdir:
+                    rel = os.path.relpath(os.path.join(root, f), mdir)
+                    parts = rel.split(os.sep)
+                    if parts[0] in ("demo", "demos"):
+                        parts = parts[1:]
+                    nested.append((os.path.join(root, f), os.sep.join(parts)))
         sh("git checkout -- . && git clean -fdq", cwd=wt)
         ok = True
         # 1. confirmation in scratch worktree
@@ -70,6 +82,12 @@ def main():
             if rc != 0:
                 rec["confirm"] = "suite fails with patch: " + out[-500:]; ok = False
         placed = []
+        if ok:
+            for src, rel in nested:
+                if os.path.isdir(os.path.join(wt, os.path.dirname(rel))):
+                    shutil.copyfile(src, os.path.join(wt, rel)); placed.append(rel)
+                else:
+                    rec["confirm"] = "cannot place nested demo " + rel; ok = False
         if ok:
             for d in demos:
                 fname = os.path.basename(d)
@@ -97,27 +115,30 @@ def main():
         rec["confirmed"] = ok
         # 2. my checks against /repo with the patch
         if ok:
-            rc, out = sh(["git", "-C", "/repo", "apply", patch])
+            rc, out = sh(["git", "-C", TARGET, "apply", patch])
             if rc != 0:
-                rec["checks"] = "patch does not apply to /repo HEAD: " + out[-300:]
+                rec["checks"] = "patch does not apply to HEAD: " + out[-300:]
             else:
                 verdicts = {}
                 try:
                     for c in checks:
+                        ENV["VERIF_REPO"] = TARGET
                         rc, out = sh([os.path.join(VERIF, "bin", "check"), c, "quick"], cwd=VERIF, timeout=1800)
                         last = [l for l in out.splitlines() if l.startswith(("VIOLATION", "OK", "KNOWN"))]
                         verdicts[c] = {"exit": rc, "lines": last[-3:]}
                 finally:
-                    sh(["git", "-C", "/repo", "checkout", "--", "."])
+                    sh(["git", "-C", TARGET, "checkout", "--", "."])
                 rec["checks"] = verdicts
                 rec["detected"] = any(v["exit"] == 1 for v in verdicts.values())
         # 3. keep
         if ok:
-            dst = os.path.join(VERIF, "seeded", "%s-%s" % (pid, name))
+            dst = os.path.join(VERIF, "seeded", "%s-%s%s" % (pid, os.environ.get("SEED_ROUND", ""), name))
             os.makedirs(dst, exist_ok=True)
             shutil.copyfile(patch, os.path.join(dst, "patch.diff"))
-            for d, p in zip(demos, placed):
+            for d in demos:
                 shutil.copyfile(d, os.path.join(dst, os.path.basename(d)))
+            for src, rel in nested:
+                shutil.copyfile(src, os.path.join(dst, rel.replace(os.sep, "__")))
             m2 = {"property": pid, "summary": meta.get("summary"), "needs": meta.get("needs"),
                   "files_changed": meta.get("files_changed"), "demo_files": placed, "demo_cmd": demo_cmd,
                   "confirmed_by_me": {"suite_with_patch": rec.get("suite_with_patch"),
